@@ -891,7 +891,7 @@ func RunTsim(scn *Scenario) *Run {
 	return r
 }
 
-var spellings = []string{"canon", "uphost", "defport", "pctlower", "pctunres", "dot", "dotdot", "frag", "pctunreslower", "upscheme"}
+var spellings = []string{"canon", "uphost", "defport", "pctlower", "pctunres", "dot", "dotdot", "frag", "pctunreslower", "upscheme", "pctdot", "pctdotdot"}
 
 // BuildURL renders resource res in the given spelling; every spelling is
 // equivalent to the canonical one under RFC 3986 §6.2.2-6.2.3 by construction.
@@ -925,6 +925,11 @@ func BuildURL(res *Resource, sp int) string {
 		p = strings.Replace(p, "/", "/./", 1)
 	case "dotdot":
 		p = "/zz/.." + p
+	case "pctdot":
+		// "%2E" is "." (an unreserved character, RFC 3986 §6.2.2.2), so these are dot segments too
+		p = strings.Replace(p, "/", "/%2E/", 1)
+	case "pctdotdot":
+		p = "/zz/%2e%2E" + p
 	case "frag":
 		u := scheme + "://" + host + p
 		if q != "" {
